@@ -11,7 +11,7 @@ claim("C07",
   design_ref="DESIGN.md §3 C07, §2 E1")
 
 claim("C06",
-  technique="static typestate analysis over go/ssa paths (abstract logon-state set, check-sequence constraints), path-condition comparison of the parameter-check decision tree, operand-flow matching; entry rule for WaitingLogonAnswer (only where the session's own Logon is sent); runs the C03 integrity rules as a premise; origin of the installed logon callback; recover-sets-error rule; no counter reset on refusal paths",
+  technique="static typestate analysis over go/ssa paths (abstract logon-state set, check-sequence constraints), path-condition comparison of the parameter-check decision tree, operand-flow matching; entry rule for WaitingLogonAnswer (only where the session's own Logon is sent); runs the C03 integrity rules as a premise; origin of the installed logon callback; recover-sets-error rule; no counter reset on refusal paths; producer-contract rules of props/contracts.go as premises",
   text="Safety rules decided for every inbound history at once (they hold per inbound message in every abstract state): each transition to SuccessfulLogged anywhere in package session sits behind "
        "parse-ok + the state read as WaitingLogonAnswer, or behind parse-ok + WaitingLogon + parameter check + application approval + timer start, or is a restoration from WaitingTestReqAnswer, which itself is entered only from logged-on states; "
        "the parameter check's decision tree equals method∈allowed ∧ Min≤HeartBtInt≤Max with the right tag per refusal; every refusal path emits exactly one Reject with the Logon's MsgSeqNum and changes no state; "
@@ -35,7 +35,7 @@ claim("C15",
   design_ref="DESIGN.md §3 C15")
 
 claim("C16",
-  technique="static path enumeration over go/ssa of the five administrative handlers, classified by parse outcome and by the refined value of the first state read; trace constraints; operand-flow matching in the raw-bytes reject; runs the C03 integrity rules and the probe-state entry rule as premises; value formatters and the connection reader's framing rules (C04·F1–F3) as premises; all-types handlers neither stop the dispatch nor send",
+  technique="static path enumeration over go/ssa of the five administrative handlers, classified by parse outcome and by the refined value of the first state read; trace constraints; operand-flow matching in the raw-bytes reject; runs the C03 integrity rules and the probe-state entry rule as premises; value formatters and the connection reader's framing rules (C04·F1–F3) as premises; all-types handlers neither stop the dispatch nor send; producer-contract rules of props/contracts.go as premises",
   text="For each administrative handler: parsing is the first event, of the handler's own bytes, into a fresh builder of its own type; every parse-error path and every not-permitted-in-this-state path contains exactly one Reject send, "
        "no state change that alters logged-on-ness, no cancellation, and returns true so dispatch continues; every parse-ok path of Heartbeat/TestRequest/ResendRequest is behind a logged-on test; the raw-bytes reject takes RefSeqNum from "
        "Atoi(ValueByTag(offending bytes, MsgSeqNum tag)) and names that tag when the lookup or the conversion fails. Does not decide that later valid messages are processed normally beyond absence of state change/cancel.",
@@ -43,7 +43,7 @@ claim("C16",
   design_ref="DESIGN.md §3 C16")
 
 claim("C10",
-  technique="static operand-flow and path-condition analysis over go/ssa (resend handler, save handler, gap check), loop-shape check of the store's range lookup; argument identity of the gap check; store retention; send-path order shared with C19; handler-pool grow-only rule; lock pairing on every returning path; no counter write before the gap check on any Logon trace",
+  technique="static operand-flow and path-condition analysis over go/ssa (resend handler, save handler, gap check), loop-shape check of the store's range lookup; argument identity of the gap check; store retention; send-path order shared with C19; handler-pool grow-only rule; lock pairing on every returning path; no counter write before the gap check on any Logon trace; producer-contract rules of props/contracts.go as premises",
   text="Structural necessary conditions for every outbound history and every requested range: messages are saved under their own MsgSeqNum by the first outgoing handler; the resend handler passes the parsed BeginSeqNo/EndSeqNo "
        "(EndSeqNo = 0 ⇒ the outgoing counter's current value) to the store's outgoing side and hands the returned list unmodified to SendBatch without taking a number or re-stamping a header; the in-memory store returns "
        "exactly messages[from..to] ascending or an error, never a partial list; a gap at logon is requested from last-received+1 with EndSeqNo 0. Byte identity of retransmitted messages beyond 'same stored object, no mutation on the path' is not decided.",
@@ -51,7 +51,7 @@ claim("C10",
   design_ref="DESIGN.md §3 C10")
 
 claim("C19",
-  technique="static dominance / path-condition analysis over go/ssa of the send and dispatch paths; loop-shape checks of the handler pools; constructor trace (first registered outgoing handler); event-pool order rule",
+  technique="static dominance / path-condition analysis over go/ssa of the send and dispatch paths; loop-shape checks of the handler pools; constructor trace (first registered outgoing handler); event-pool order rule; producer-contract rules of props/contracts.go as premises",
   text="For every set of handlers and every refusal/store-failure pattern: the enqueue in DefaultHandler.send is reached only through the pass edges of the all-types range, the type range and ToBytes, in that order, with the bytes ToBytes returned; "
        "each fail edge returns a non-nil error that Send/SendBatch/Session.send/Session.Send propagate; pools append, snapshot in order, iterate ascending and stop at the first refusal; the session's save handler is the first all-types outgoing handler and is "
        "registered before the constructor returns; inbound dispatch offers each message to the all-types handlers and then to the handlers of its extracted type. What a handler does with the message is the application's.",
@@ -59,7 +59,7 @@ claim("C19",
   design_ref="DESIGN.md §3 C19")
 
 claim("C05",
-  technique="must-held lockset analysis over go/ssa (lock regions), who-may-call census of numbering/send sites, no-spawn check on the send chain, operand-flow matching of the header stamps; one-writer-per-connection census (shared with C04); reset-constant rule of the bundled counter store; origin census of the session's time location; teardown-reaches-context rule shared with C13; one socket write per message outside any loop",
+  technique="must-held lockset analysis over go/ssa (lock regions), who-may-call census of numbering/send sites, no-spawn check on the send chain, operand-flow matching of the header stamps; one-writer-per-connection census (shared with C04); reset-constant rule of the bundled counter store; origin census of the session's time location; teardown-reaches-context rule shared with C13; one socket write per message outside any loop; producer-contract rules of props/contracts.go as premises",
   text="The premises of the ordering argument are decided for every schedule: the number is taken, the header stamped and the message enqueued inside one Session.mu region (and one DefaultHandler.mu region below it); there is a single numbering site and a single Router.Send site; "
        "no goroutine is spawned between numbering and the FIFO channel; the bundled counter is an atomic increment-and-return and is never reset or set by the session; the stamps are the number just taken, the session's (mirrored) identifiers and time.Now() in FIX layout on the message that is sent; "
        "the channel has one producer function and one consumer per serve function. The argument from these premises to gap-free, ordered numbering on the wire is manual (DESIGN.md); the refused/unsaved case is C19.",
@@ -67,7 +67,7 @@ claim("C05",
   design_ref="DESIGN.md §3 C05, §2 E2")
 
 claim("C20",
-  technique="lockset (guarded-by) analysis over go/ssa with interprocedural lock inheritance for unexported helpers; atomic-consistency check; completeness census of field stores; copylock rule (no value receiver/parameter/result/whole-struct load of a type holding a sync primitive)",
+  technique="lockset (guarded-by) analysis over go/ssa with interprocedural lock inheritance for unexported helpers; atomic-consistency check; completeness census of field stores; copylock rule (no value receiver/parameter/result/whole-struct load of a type holding a sync primitive); producer-contract rules of props/contracts.go as premises",
   text="For all schedules at once: every access to the five guarded fields happens with the guard held on the same object (exclusive for writes), the store's counters are touched only through sync/atomic, and every other struct field of the "
        "library packages that is written outside its constructor is one of six named configuration fields whose premise is checked. A sufficient condition for race freedom on the library's own shared state; memory reached through application callbacks, "
        "custom stores, or message objects shared by the application is not modelled.",
@@ -82,7 +82,7 @@ claim("C08",
   design_ref="DESIGN.md §3 C08, §2 E10")
 
 claim("C09",
-  technique="static wiring analysis over go/ssa (timer variable identity, period arithmetic), typestate path enumeration of the probe goroutine, call-chain checks from the disconnect event to net.Conn.Close; order of the state change and the probe send on every trace; who-may-refresh census of the probe timer; census of Disconnect transitions by abstract pre-state; no lock held where the socket is closed",
+  technique="static wiring analysis over go/ssa (timer variable identity, period arithmetic), typestate path enumeration of the probe goroutine, call-chain checks from the disconnect event to net.Conn.Close; order of the state change and the probe send on every trace; who-may-refresh census of the probe timer; census of Disconnect transitions by abstract pre-state; no lock held where the socket is closed; socket-option census (no read deadline); framing rules as a premise",
   text="Necessary conditions: every inbound message refreshes the timer the probe goroutine waits on and restores WaitingTestReqAnswer→SuccessfulLogged; the period is time.Second × (HeartBtInt + max(1, HeartBtInt/20)); per expiry the goroutine disconnects iff the state was read as WaitingTestReqAnswer, "
        "probes (state change + one TestRequest) iff it was read as SuccessfulLogged, and does nothing otherwise; Disconnect triggers the disconnect event, whose callback cancels the session and stops the handler; handler stop → Run returns → every goroutine of the connection runs the shared cancel → socket closed. "
        "'A peer that sends at least every N seconds is never probed or disconnected' depends on arrival times and is NOT decided.",
@@ -90,7 +90,7 @@ claim("C09",
   design_ref="DESIGN.md §3 C09, §2 E10")
 
 claim("C04",
-  technique="static ownership / who-may-call analysis over go/ssa: sole-reader census, loop-carried buffer dataflow (phi edges of the read loop), producer/consumer census of the hand-off channels, no-spawn check of the dispatch path, freshness of per-connection objects; forward flow of every value received from a byte-message channel to a sink on every path (no dropped message); goroutine-ownership census through shared helpers; channel-capacity rules (unbuffered reader queue and error rendezvous); lock-region shape of the batch send (one acquisition outside the loop); who-may-dispatch census; inbound hand-over select shape; one socket write per message outside any loop",
+  technique="static ownership / who-may-call analysis over go/ssa: sole-reader census, loop-carried buffer dataflow (phi edges of the read loop), producer/consumer census of the hand-off channels, no-spawn check of the dispatch path, freshness of per-connection objects; forward flow of every value received from a byte-message channel to a sink on every path (no dropped message); goroutine-ownership census through shared helpers; channel-capacity rules (unbuffered reader queue and error rendezvous); lock-region shape of the batch send (one acquisition outside the loop); who-may-dispatch census; inbound hand-over select shape; one socket write per message outside any loop; reader does not cancel the connection (recorded finding D21); socket-option census",
   text="All partitions of the byte stream are covered through one contract: the socket is read only by bufio.Reader.ReadBytes(SOH) on one reader per connection. Decided structurally: bytes read are always appended to a local buffer or the accumulated message is handed off and the buffer re-bound to a fresh allocation; "
        "the hand-off test is a start-anchored comparison with the CheckSum tag; each hand-off channel has one producer and one consumer goroutine; each dequeued message is written with one net.Conn.Write; no goroutine is spawned on the dispatch path; "
        "each accepted socket gets its own Conn, handler and channels. Timing and custom net.Conn implementations are not decided.",
@@ -98,7 +98,7 @@ claim("C04",
   design_ref="DESIGN.md §3 C04, §2 E3/E4")
 
 claim("C13",
-  technique="static blocking-operation discipline over go/ssa: census of channel sends/receives and goroutine bodies, loop-exit classification, deferred-cancel pairing, teardown-reaches-context rules, who-may-call table for StopWithError, lock-order graph over the VTA call graph; lock pairing on every returning path (acquire/release, deferred unlocks); origin analysis of the context a per-connection goroutine watches (through helper parameters to all call sites); listener closed on every return of the function that starts the accept goroutine; no condition-variable waits; context-scope rule for bare waits through exported constructors",
+  technique="static blocking-operation discipline over go/ssa: census of channel sends/receives and goroutine bodies, loop-exit classification, deferred-cancel pairing, teardown-reaches-context rules, who-may-call table for StopWithError, lock-order graph over the VTA call graph; lock pairing on every returning path (acquire/release, deferred unlocks); origin analysis of the context a per-connection goroutine watches (through helper parameters to all call sites); listener closed on every return of the function that starts the accept goroutine; no condition-variable waits; context-scope rule for bare waits through exported constructors; configured write timeout passed along unchanged",
   text="Exhaustive over the source of the library packages: every channel send is a select case with the owning context's Done() (two tabled exceptions with checked premises); every loop of every goroutine body has an exit governed by cancellation, a closed channel or an error of a blocking call on a resource the close path closes; "
        "every goroutine of a connection defers the shared cancel first and that cancel closes the socket and every scope a sender can wait on (including the initiator's handler); Run raises the stopped/disconnect event before returning; the timer goroutines test the session context after each wake-up; "
        "the mutex acquisition order is acyclic. Necessary structural conditions for 'nothing stays blocked'; the settling time and the relative timing of cause and in-flight traffic are NOT decided.",
@@ -107,7 +107,7 @@ claim("C13",
 
 claim("C01",
   category="proof",
-  technique="byte-layout inference over go/ssa (a compositional effect/type inference: atoms for leaf producers, constants for literal bytes, linear forms for lengths), per-path comparison of the assembled layout with the length function, dominance and who-may-write checks; read-only (effect) analysis of the length function, the assembly and the checksum function over the VTA call graph",
+  technique="byte-layout inference over go/ssa (a compositional effect/type inference: atoms for leaf producers, constants for literal bytes, linear forms for lengths), per-path comparison of the assembled layout with the length function, dominance and who-may-write checks; read-only (effect) analysis of the length function, the assembly and the checksum function over the VTA call graph; producer-contract rules of props/contracts.go as premises",
   text="Proof relative to the layout model: for every path of the serializer the inferred layout of Message.prepared is BeginString·SOH·BodyLength·SOH·MsgType·(SOH·non-empty part)*·SOH·10=CHK·SOH; the integer stored into the BodyLength value equals, as a linear form over the atoms' lengths, "
        "the length of the region it must measure, for every consistent combination of emptiness conditions; CHK is the checksum function applied to exactly the emitted prefix, and that function adds every byte once plus one SOH modulo 256 as three zero-padded digits; only Prepare writes the image and ToBytes returns it only after a successful Prepare. "
        "Because atoms are opaque, the statement covers every template, population and value (digit-count and modulo boundaries need no case split). Every obligation must be discharged; none is excepted.",
@@ -115,7 +115,7 @@ claim("C01",
   design_ref="DESIGN.md §3 C01, §2 E5")
 
 claim("C17",
-  technique="static writer/reader table agreement (layout inference of the serializer vs. the item list offered to the parser), codec-pair table check per value type over go/ssa paths, loop-shape (collector) summaries of the leaf producers, storage-ownership checks of the entry accessors; runs the C02 decoder rules as a premise; typed-template freshness shared with C02; no collector return that bypasses its loop",
+  technique="static writer/reader table agreement (layout inference of the serializer vs. the item list offered to the parser), codec-pair table check per value type over go/ssa paths, loop-shape (collector) summaries of the leaf producers, storage-ownership checks of the entry accessors; runs the C02 decoder rules as a premise; typed-template freshness shared with C02; no collector return that bypasses its loop; producer-contract rules of props/contracts.go as premises",
   text="Structural conditions for 'exactly the populated fields reach the wire, once, in template order': the serializer emits the same ordered parts Items() lists; constructors and setters mark values populated and ToBytes is the tabled canonical text (nil when null); "
        "every leaf producer iterates its own slice in index order, skips exactly the elements without bytes, joins with SOH and modifies nothing; a KeyValue emits its own key once; a group emits its count first; accessors hand out the message's own storage. "
        "One recorded finding: the trailer is listed but never emitted (cannot be repaired without failing a pinned test). Not decided: canonical text beyond the codec table.",
@@ -123,28 +123,28 @@ claim("C17",
   design_ref="DESIGN.md §3 C17, §2 E5/E8")
 
 claim("C18",
-  technique="static needle-shape analysis: byte-layout inference of the needle of every bytes/strings search call in the decoder, ValueByTag and the connection reader; positional checks of the group separator's slice bounds; who-may-search census; framing rules of the connection reader (C04·F1–F3) as a premise",
+  technique="static needle-shape analysis: byte-layout inference of the needle of every bytes/strings search call in the decoder, ValueByTag and the connection reader; positional checks of the group separator's slice bounds; who-may-search census; framing rules of the connection reader (C04·F1–F3) as a premise; producer-contract rules of props/contracts.go as premises",
   text="For every message content at once: every tag-derived needle is SOH·tag·'=' when searched inside a buffer, or tag·'=' when compared with the start of a buffer that begins at a field boundary; the repeating-group separator is taken at the delimiter after the count field and ends with the first '='; "
        "the end-of-message tag is compared only with the start of a delimiter-terminated segment; packages root and session inspect raw bytes only through ValueByTag/Unmarshal with configured tags. Anchoring is decided; which of several well-anchored occurrences (duplicate tags) is chosen is not.",
   note="Trusted: go/ssa; the layout model (seq.go) for needles; bytes.Index/HasPrefix semantics.",
   design_ref="DESIGN.md §3 C18, §2 E7")
 
 claim("C11",
-  technique="static panic census over the decoder's call-graph closure; bounds obligations discharged by the Go compiler's prove pass (bounds-check report) or by a path-wise linear-inequality engine with library facts, tabled preconditions proved at call sites and a loop invariant proved by induction; variant-based termination check; nil-interface-field rule (every library construction of a struct sets the interface fields the parser calls unguarded); non-negative repeat counts; builders called unguarded are read by the option validation",
+  technique="static panic census over the decoder's call-graph closure; bounds obligations discharged by the Go compiler's prove pass (bounds-check report) or by a path-wise linear-inequality engine with library facts, tabled preconditions proved at call sites and a loop invariant proved by induction; variant-based termination check; nil-interface-field rule (every library construction of a struct sets the interface fields the parser calls unguarded); non-negative repeat counts; builders called unguarded are read by the option validation; producer-contract rules of props/contracts.go as premises",
   text="Every slice/index operation, non-comma-ok type assertion, explicit panic and integer division reachable from the decoder entry points (and from the session's inbound path down to them) is an obligation; each is discharged by the compiler's prove pass, by the linear engine on every acyclic path, or by one of three tabled exceptions with checked premises. "
        "Every loop in that set has a variant. This is a proof of panic-freedom and termination of the decoder set relative to the trusted base below, for every byte string and every well-formed template; it is not labelled proof because of the tabled exceptions.",
   note="Trusted: the Go compiler's prove pass; go/ssa; the library facts about bytes.Index/HasPrefix/Join, make and range encoded in checker/an/linprove.go; assumption that a template's three framing tags are distinct and its KeyValues have non-nil values. Recursion depth on templates and memory use are not decided.",
   design_ref="DESIGN.md §3 C11, §2 E6")
 
 claim("C03",
-  technique="static must-pass-through (dominance + path conditions) analysis of the decoder's validation, mode-independence check of branch conditions, mirror-arithmetic comparison of the validator's linear forms with the serializer's layout; mode-independence over every function the framing lookup goes through; identity of the scanned bytes with the validated bytes (parameter pass-through)",
+  technique="static must-pass-through (dominance + path conditions) analysis of the decoder's validation, mode-independence check of branch conditions, mirror-arithmetic comparison of the validator's linear forms with the serializer's layout; mode-independence over every function the framing lookup goes through; identity of the scanned bytes with the validated bytes (parameter pass-through); trailer test on the accepting path (the CheckSum field found is the input's last field)",
   text="Decides the soundness half structurally: a message is populated or reported parsed only after the raw validation returned nil; the validation has a single accepting path, which requires declared length == measured length and byte-equality of the declared with the recomputed checksum (recomputed with the serializer's own function over the serializer's own prefix length); "
        "no decision depends on strict mode; missing or non-numeric BodyLength is an error. It does NOT decide that every damaged neighbour of a valid message fails these checks (that is a statement about all 256·n variants; e.g. a NUL inserted into the BeginString value is invisible to both checks).",
   note="Trusted: go/ssa; canonical rendering; the serializer's layout as established by C01.",
   design_ref="DESIGN.md §3 C03")
 
 claim("C02",
-  technique="static codec-pair table check, exhaustiveness/type-preservation analysis of the template switches over go/ssa paths, loop-shape and operand-identity checks of the group decoder, linear-form comparison of slice cuts; no store into the split pieces; value setters of the codec table; use census of the declared group count",
+  technique="static codec-pair table check, exhaustiveness/type-preservation analysis of the template switches over go/ssa paths, loop-shape and operand-identity checks of the group decoder, linear-form comparison of slice cuts; no store into the split pieces; value setters of the codec table; use census of the declared group count; producer-contract rules of props/contracts.go as premises",
   text="Structural necessary conditions for round-tripping, each of which breaks it when broken: formatter/parser of every value type are an inverse pair (Float keeps and prefers its source bytes); templates are rebuilt with the same kinds and concrete value types at the same positions; "
        "each group entry gets a fresh template created inside the per-entry loop, filled from its own piece and added once, with the number of pieces checked against the parsed count; a value is exactly the bytes after its anchored 'tag=' up to the next delimiter; splitGroup partitions its input; item loops visit every item. "
        "Equality of parsed with original values over all inputs, and which of several well-anchored occurrences is found, are NOT decided.",
@@ -153,7 +153,7 @@ claim("C02",
 
 claim("C12",
   category="translation_validation",
-  technique="static schema-to-package validation (the XML schemas read as data vs. the shipped package as typed syntax, declaration by declaration) plus generator lints over go/ssa and the parsed text templates (template-field existence, accessor index agreement, index lock-step, map-order taint table, duplicate rejection, type-table agreement); interprocedural backward slice of the output path (directory untransformed), package-level-state and single-derivation lints; version-string rendering rule (Sprintf verbs matched to arguments); formatting failure is fatal on every path",
+  technique="static schema-to-package validation (the XML schemas read as data vs. the shipped package as typed syntax, declaration by declaration) plus generator lints over go/ssa and the parsed text templates (template-field existence, accessor index agreement, index lock-step, map-order taint table, duplicate rejection, type-table agreement); interprocedural backward slice of the output path (directory untransformed), package-level-state and single-derivation lints; version-string rendering rule (Sprintf verbs matched to arguments); formatting failure is fatal on every path; evaluation of the constant package-name pattern",
   text="The shipped reference package is validated against an oracle derived from the XML alone: constants, member order and value types of every message/component/header/trailer/group, accessor positions and Go types, populating constructors, pipeline wrappers, and the converse (no constant without a schema origin). "
        "For every schema, necessary conditions on the generator source are decided: template fields exist, getter and setter share index/name/type, the accessor index tracks the constructor position on every path, required ⇔ constructor argument + setter call, groups of any depth are collected, no map order reaches the output, "
        "the package name is the output directory's base name, duplicates are rejected before any write, the type table agrees with package fix. One recorded finding (one type per group name: NoMDEntries). NOT decided: that an arbitrary accepted schema yields a compiling package, and that the shipped package is what the generator emits — both need running the generator.",
